@@ -207,6 +207,19 @@ def reuse_pair(variant):
     near = "x = 1\ny = 2\nw = 99\nz = 3\n"          # similarity ~0.83: neither strict nor dissimilar
     near2 = "x = 1\nv = 77\ny = 2\nz = 3\n"
     t0, t_sim, t_far = G.STREAM[0], G.STREAM[1], "entirely different output, nothing in common at all\n"
+    if variant == 3:
+        # format 4.5: the cells keep their ids, every source is rewritten
+        # completely (paired by id alone: one patch per cell)
+        far = ["import os\nprint(os.getcwd())\n", "def f(q):\n    return q ** 2\n"]
+        ca, cb = [], []
+        for n, (s0, s1) in enumerate(zip((base_src, near2), far)):
+            c0, c1 = cell(s0, t0), cell(s1, t0)
+            c0["id"] = c1["id"] = "kept-id-%d" % n
+            ca.append(c0)
+            cb.append(c1)
+        A = {"nbformat": 4, "nbformat_minor": 5, "metadata": {}, "cells": ca}
+        B = {"nbformat": 4, "nbformat_minor": 5, "metadata": {}, "cells": cb}
+        return nbformat.from_dict(A), nbformat.from_dict(B)
     A = {"nbformat": 4, "nbformat_minor": 4, "metadata": {}, "cells": [cell(base_src, t0)]}
     if variant == 0:
         cells = [cell(near, t_sim), cell(near2, t_far)]
@@ -226,7 +239,8 @@ def make_reuse(props=("C12",), known=()):
     cfg_ops = [("cfg", i, 0) for i in range(len(CONFIGS))] + [("ign", i, 0) for i in range(len(IGNORES))]
 
     def h(E):
-        variant = E.choice("pair", 3)
+        variant = E.choice("pair", 4)
+        E.goal("ids-kept-sources-rewritten-after-ids-were-ignored", variant == 3)
         first = cfg_ops[E.choice("first", len(cfg_ops))]
         undo = (("reset", 0, 0), ("cfg", 3, 0))[E.choice("undo", 2)]
         order = E.choice("order", 2)           # 0: configured diff first, 1: plain diff first then configured
@@ -266,10 +280,61 @@ def make_reuse(props=("C12",), known=()):
     return h, dict(reset=None, shadow_every=5)
 
 
+def _long_texts():
+    l1 = "".join("line %d of a long captured output\n" % i for i in range(60))
+    l2 = "".join(("line %d of a long captured output\n" % i) if i % 8 else ("completely other text %d\n" % i) for i in range(60))
+    return l1, l2
+
+
+def make_text_roles(props=("C12",), known=()):
+    """The same two long texts (> 1000 characters, similarity between the
+    approximate and the strict threshold) met in different ROLES by successive
+    diffs of one process: as stream outputs (compared with a length cap), as
+    text/plain data (another cap) and as cell sources (no cap).  The later
+    diff must equal what a pristine nbdime returns for it."""
+    ROLES = ("stream", "text/plain", "source")
+
+    def h(E):
+        import nbformat
+        l1, l2 = _long_texts()
+
+        def nb(role, t):
+            c = {"cell_type": "code", "execution_count": 1, "metadata": {}, "source": "s = 1\n", "outputs": []}
+            if role == "stream":
+                c["outputs"] = [{"output_type": "stream", "name": "stdout", "text": t}]
+            elif role == "text/plain":
+                c["outputs"] = [{"output_type": "display_data", "metadata": {}, "data": {"text/plain": t}}]
+            else:
+                c["source"] = t
+            return nbformat.from_dict({"nbformat": 4, "nbformat_minor": 4, "metadata": {}, "cells": [c]})
+        r1 = ROLES[E.choice("earlier-role", 3)]
+        r2 = ROLES[E.choice("later-role", 3)]
+        fresh_nbdime()
+        from nbdime.diffing import notebooks as nbs
+        try:
+            nbs.diff_notebooks(nb(r1, l1), nb(r1, l2))
+            full = ("ok", nbs.diff_notebooks(nb(r2, l1), nb(r2, l2)))
+        except Exception as ex:  # noqa
+            full = ("raised", "%s: %s" % (type(ex).__name__, str(ex)[:160]))
+        fresh_nbdime()
+        from nbdime.diffing import notebooks as nbs2
+        try:
+            prist = ("ok", nbs2.diff_notebooks(nb(r2, l1), nb(r2, l2)))
+        except Exception as ex:  # noqa
+            prist = ("raised", "%s: %s" % (type(ex).__name__, str(ex)[:160]))
+        E.nontrivial(r1 != r2)
+        E.goal("same-long-texts-in-different-roles", r1 != r2)
+        info = "texts of %d / %d characters first diffed as %s, then as %s" % (len(l1), len(l2), r1, r2)
+        E.check("same-outcome-kind-as-pristine", full[0] == prist[0], info=info)
+        if full[0] == "ok" and prist[0] == "ok":
+            E.check("later-diff-of-the-same-texts-in-another-role==pristine", json_identical(full[1], prist[1]), info=info)
+    return h, dict(reset=None, shadow_every=1)
+
+
 def shards(tier, props, known):
     kw = dict(props=tuple(props), known=tuple(known))
     out = [("make_history", "hist1", dict(first_kinds=("diff",), k=1, **kw)),
-           ("make_reuse", "reuse", dict(**kw))]
+           ("make_reuse", "reuse", dict(**kw)), ("make_text_roles", "text-roles", dict(**kw))]
     allk = ("diff", "merge", "gdiff", "cfg")
     n = len(op_space(allk))
     step = 8
